@@ -891,6 +891,38 @@ def case_header_values(ctx, cls):
                 ctx.judged(("header-value", cls, cont, vi, how, fid), sample={"class": cls, "header_value": repr(value)[:80], "path": how})
 
 
+def case_user_classes(ctx, rseed, count):
+    """Formulas of a user's own subclass of CNF / OPB that present their rows through the sequence protocol while the
+    inherited table holds other rows (vmon/ducks.py), and pseudo-Boolean rows whose (coefficient, literal) pairs are
+    lists: every rendering must show what the object presents."""
+    from ..ducks import view_cnf, view_opb
+    r = ctx.rng("c12user", rseed)
+    with TempDir() as tmp:
+        for serial in range(count):
+            n = r.randint(1, 6)
+            if serial % 3 == 0:
+                shown = [[r.choice([1, -1]) * r.randint(1, n) for _ in range(r.randint(0, 3))] for _ in range(r.randint(0, 5))]
+                F = view_cnf(n, shown, shown[:1] + [[r.choice([1, -1]) * r.randint(1, n)] for _ in range(2)] + shown)
+                origin = "user subclass of CNF"
+            else:
+                def row():
+                    vs = r.sample(range(1, n + 1), r.randint(1, min(n, 3)))
+                    return [(r.randint(1, 4), r.choice([1, -1]) * v) for v in vs] + [r.choice([">=", "=="]), r.randint(0, 4)]
+                shown = [row() for _ in range(r.randint(0, 5))]
+                if serial % 3 == 1:
+                    F = view_opb(n, shown, [row() for _ in range(2)] + shown)
+                    origin = "user subclass of OPB"
+                else:
+                    from cnfgen.formula.opb import OPB
+                    F = OPB()
+                    F.update_variable_number(n)
+                    for c in shown:
+                        F.add_constraint([list(t) if isinstance(t, tuple) else t for t in c])     # pairs given as lists
+                    origin = "OPB rows with list pairs"
+            ctx.count("user_class_formulas")
+            judge_formula(ctx, F, r, tmp, 5000 + serial, None if serial % 4 == 0 else 7, origin)
+
+
 def case_block_sizes(ctx, cls, sizes):
     """Formulas whose number of rows is a power of two or a small multiple of one (writers that buffer their output
     work in blocks of such sizes), and their neighbours."""
@@ -1036,6 +1068,8 @@ def workload(tier, seed):
     for cls in ("CNF", "OPB"):
         for where in ("header", "varname"):
             yield "shield", {"cls": cls, "where": where}
+    for b in range(3 if quick else 40):
+        yield "user_classes", {"rseed": seed * 100 + b, "count": 30}
     for cls in ("CNF", "OPB"):
         yield "long_lines", {"cls": cls}
         yield "header_values", {"cls": cls}
